@@ -74,6 +74,11 @@ struct Model {
     /// per predicate: an asserta happened / a call went through first-argument indexing
     asserta_seen: [bool; 2],
     indexed_call: [bool; 2],
+    /// a re-entrant retract/1 that reaches a clause someone else removed meanwhile may still
+    /// offer it as an answer (true) or skip it (false): the statement fixes neither, so the
+    /// model is run once per combination ("world"); it never removes anything else
+    choices: Vec<bool>,
+    meets: usize,
     /// (log length, database text) after every writer step, for the fault configuration
     states: Vec<(usize, String)>,
 }
@@ -368,9 +373,22 @@ fn run(m: &mut Model, ops: &[Value], k: usize) {
                 let alive = pos.map(|p| m.pred(&pred)[p].death == u64::MAX).unwrap_or(false);
                 if !alive {
                     // a clause of this cursor's snapshot was removed by someone else meanwhile:
-                    // the statement does not say what a re-entrant retract does then
-                    m.ambiguous = Some("retract-meets-removed-clause");
-                    return;
+                    // the statement does not say whether the cursor still offers it; it
+                    // certainly removes nothing
+                    let offer = m.choices.get(m.meets).copied().unwrap_or(true);
+                    m.meets += 1;
+                    if m.meets > 3 {
+                        m.ambiguous = Some("retract-meets-removed-clause");
+                        return;
+                    }
+                    if offer {
+                        m.log.push(format!("r({},{})", id, inst(&pat, &c.args).join(",")));
+                        run(m, ops, k + 1);
+                        if m.stop() {
+                            return;
+                        }
+                    }
+                    continue;
                 }
                 m.clock += 1;
                 let t = m.clock;
@@ -503,7 +521,9 @@ impl Check for C09 {
     }
 
     fn timeout_s(&self) -> f64 {
-        30.0
+        // a history that burns its whole instruction budget while the code area keeps growing
+        // (the recorded indexed-cursor defect) takes about 30 s
+        150.0
     }
 
     fn prepare(&mut self, _oracle: Option<&Value>) {
@@ -663,14 +683,20 @@ impl C09 {
         let interrupt_at = case["interrupt_at"].as_u64().unwrap_or(0);
         let guard = init.iter().chain(ops.iter()).any(|o| o["op"] == "abolish");
 
-        // model
-        let mut model = Model::default();
-        run(&mut model, &init, 0); // init ops are writers only: runs them once, then "fails"
-        model.log.clear();
-        model.states.clear();
-        model.steps = 0;
-        model.note_state();
-        run(&mut model, &ops, 0);
+        // model (first world: a re-entrant retract/1 still offers clauses removed meanwhile)
+        let world = |choices: Vec<bool>| -> Model {
+            let mut model = Model::default();
+            run(&mut model, &init, 0); // init ops are writers only: runs them once, then "fails"
+            model.log.clear();
+            model.states.clear();
+            model.steps = 0;
+            model.meets = 0;
+            model.choices = choices;
+            model.note_state();
+            run(&mut model, &ops, 0);
+            model
+        };
+        let model = world(vec![]);
         let var_hazard = (0..2).any(|i| model.var_headed[i] && model.front_or_retract[i]);
         let asserta_hazard = (0..2).any(|i| model.asserta_seen[i] && model.indexed_call[i]);
         *hazard = if var_hazard { 3 } else if model.index_hazard { 1 } else if model.dup_hazard { 2 } else if asserta_hazard { 4 } else { 0 };
@@ -691,7 +717,7 @@ impl C09 {
         let goals: Vec<String> = ops.iter().enumerate().map(|(i, o)| goal_text(o, i, guard)).collect();
         let q = format!("catch(( {}, fail ; true ), E, true).", goals.join(", "));
         let t0 = vh::ticks();
-        vh::set_tick_budget(t0 + 8_000_000);
+        vh::set_tick_budget(t0 + 5_000_000);
         vh::set_p_trace(true);
         let r = m.run_with(&q, usize::MAX, |k| {
             if k == 0 && interrupt_at > 0 {
@@ -731,7 +757,7 @@ impl C09 {
                     out.bump("unbounded_histories_stopped_by_budget", 1);
                 } else {
                     let (site, d) = m.hang_site().unwrap_or_default();
-                    out.violate("hang", format!("hang-in:{site}"), format!("{ctx}\n does not terminate (8M instructions); last instructions:{d}"));
+                    out.violate("hang", format!("hang-in:{site}"), format!("{ctx}\n does not terminate (5M instructions); last instructions:{d}"));
                 }
             } else {
                 out.violate("panic", format!("{pre}{}", panic_key(p)), format!("{ctx}: {p}"));
@@ -784,86 +810,112 @@ impl C09 {
             return out;
         }
 
+        let judge = |model: &Model, want_db: &str, out: &mut Outcome| {
         if model.ambiguous.is_none() {
-            let interrupted = fired && e_text.as_deref().map(|e| e.contains("$interrupt_thrown")).unwrap_or(false);
-            if fired && !interrupted {
-                // the interrupt struck after the goal's last instruction, or a library catch-all
-                // swallowed it (C31's subject, not asserted here): the history ran to its end
-                // and the strict oracle below applies
-                out.bump("interrupt_not_delivered_to_goal", 1);
-            }
-            if interrupted {
-                // relaxed oracle after the injected interrupt
-                let n = got_log_items.len();
-                let is_prefix = n <= model.log.len() && got_log_items.iter().zip(model.log.iter()).all(|(a, b)| a == b);
-                if !is_prefix {
-                    out.violate("wrong-view", "log-not-a-prefix-after-interrupt", format!("{ctx}\n answers logged {:?}\n the logical update view gives {:?}", got_log_items, model.log));
-                } else {
-                    // states the model passes through around the moment its log has n entries
-                    // (a log entry is written after its answer and before the next writer)
-                    // allowed: every state recorded while the model's log had n entries, and the
-                    // state in force when it reached n entries (the last one recorded before)
-                    let mut ok = false;
-                    let mut last_lt: Option<&String> = None;
-                    for (l, db) in model.states.iter() {
-                        if *l < n {
-                            last_lt = Some(db);
+                let interrupted = fired && e_text.as_deref().map(|e| e.contains("$interrupt_thrown")).unwrap_or(false);
+                if fired && !interrupted {
+                    // the interrupt struck after the goal's last instruction, or a library catch-all
+                    // swallowed it (C31's subject, not asserted here): the history ran to its end
+                    // and the strict oracle below applies
+                    out.bump("interrupt_not_delivered_to_goal", 1);
+                }
+                if interrupted {
+                    // relaxed oracle after the injected interrupt
+                    let n = got_log_items.len();
+                    let is_prefix = n <= model.log.len() && got_log_items.iter().zip(model.log.iter()).all(|(a, b)| a == b);
+                    if !is_prefix {
+                        out.violate("wrong-view", "log-not-a-prefix-after-interrupt", format!("{ctx}\n answers logged {:?}\n the logical update view gives {:?}", got_log_items, model.log));
+                    } else {
+                        // states the model passes through around the moment its log has n entries
+                        // (a log entry is written after its answer and before the next writer)
+                        // allowed: every state recorded while the model's log had n entries, and the
+                        // state in force when it reached n entries (the last one recorded before)
+                        let mut ok = false;
+                        let mut last_lt: Option<&String> = None;
+                        for (l, db) in model.states.iter() {
+                            if *l < n {
+                                last_lt = Some(db);
+                            }
+                            if *l == n && *db == got_db {
+                                ok = true;
+                            }
                         }
-                        if *l == n && *db == got_db {
+                        if last_lt.map(|db| *db == got_db).unwrap_or(false) {
                             ok = true;
                         }
+                        if !ok {
+                            out.violate("wrong-database", "database-not-a-model-state-after-interrupt", format!("{ctx}\n log has {n} entries, database {got_db}\n model states {:?}", model.states));
+                        } else {
+                            out.bump("interrupted_histories_checked", 1);
+                        }
                     }
-                    if last_lt.map(|db| *db == got_db).unwrap_or(false) {
-                        ok = true;
-                    }
-                    if !ok {
-                        out.violate("wrong-database", "database-not-a-model-state-after-interrupt", format!("{ctx}\n log has {n} entries, database {got_db}\n model states {:?}", model.states));
-                    } else {
-                        out.bump("interrupted_histories_checked", 1);
-                    }
+                    return;
                 }
-                self.m = Some(m);
-                return out;
-            }
-            // strict oracle
-            if model.thrown {
-                if e_text.as_deref() != Some("c09_ball") {
-                    out.violate("wrong-outcome", "throw-not-caught", format!("{ctx}\n E = {:?}, expected the thrown ball", e_text));
-                }
-            } else if !e_is_var {
-                let e = e_text.clone().unwrap_or_default();
-                out.violate("unexpected-exception", format!("exception:{}", e.chars().take(60).collect::<String>()), format!("{ctx}\n threw {e}"));
-                self.m = Some(m);
-                return out;
-            }
-            if got_log_items != model.log {
-                out.violate("wrong-view", "log-differs", format!("{ctx}\n answers logged [{}]\n the logical update view gives [{}]", got_log_items.join(","), model.log.join(",")));
-            } else if got_db != want_db {
-                out.violate("wrong-database", "final-database-differs", format!("{ctx}\n final {got_db}\n model {want_db}"));
-            } else {
-                // calls agree with clause/2
-                let b3 = match r3.items.first() {
-                    Some(Ans::Bind(b)) => canon_anon(&b.replace('"', "")),
-                    _ => String::new(),
-                };
-                if !want_db.contains(":-") {
-                    let parts3 = super::c40::split_top(&b3, ';');
-                    let get3 = |name: &str| parts3.iter().find_map(|p| p.strip_prefix(&format!("{}=", name)).map(|x| x.to_string())).unwrap_or_default();
-                    let p_calls = list_items(&get3("P")).join(",");
-                    let q_calls: Vec<String> = list_items(&get3("Q"))
-                        .iter()
-                        .map(|x| {
-                            let hp = super::c40::split_top(&strip_functor(x, "-"), ',');
-                            hp.iter().map(|s| s.trim().to_string()).collect::<Vec<_>>().join("-")
-                        })
-                        .collect();
-                    let calls_db = format!("p[{}] q[{}]", p_calls, q_calls.join(","));
-                    if calls_db != want_db {
-                        out.violate("wrong-database", "fresh-calls-differ", format!("{ctx}\n fresh calls enumerate {calls_db}\n model {want_db}"));
+                // strict oracle
+                if model.thrown {
+                    if e_text.as_deref() != Some("c09_ball") {
+                        out.violate("wrong-outcome", "throw-not-caught", format!("{ctx}\n E = {:?}, expected the thrown ball", e_text));
                     }
+                } else if !e_is_var {
+                    let e = e_text.clone().unwrap_or_default();
+                    out.violate("unexpected-exception", format!("exception:{}", e.chars().take(60).collect::<String>()), format!("{ctx}\n threw {e}"));
+                    return;
                 }
-                out.bump("histories_checked_against_model", 1);
+                if got_log_items != model.log {
+                    out.violate("wrong-view", "log-differs", format!("{ctx}\n answers logged [{}]\n the logical update view gives [{}]", got_log_items.join(","), model.log.join(",")));
+                } else if got_db != want_db {
+                    out.violate("wrong-database", "final-database-differs", format!("{ctx}\n final {got_db}\n model {want_db}"));
+                } else {
+                    // calls agree with clause/2
+                    let b3 = match r3.items.first() {
+                        Some(Ans::Bind(b)) => canon_anon(&b.replace('"', "")),
+                        _ => String::new(),
+                    };
+                    if !want_db.contains(":-") {
+                        let parts3 = super::c40::split_top(&b3, ';');
+                        let get3 = |name: &str| parts3.iter().find_map(|p| p.strip_prefix(&format!("{}=", name)).map(|x| x.to_string())).unwrap_or_default();
+                        let p_calls = list_items(&get3("P")).join(",");
+                        let q_calls: Vec<String> = list_items(&get3("Q"))
+                            .iter()
+                            .map(|x| {
+                                let hp = super::c40::split_top(&strip_functor(x, "-"), ',');
+                                hp.iter().map(|s| s.trim().to_string()).collect::<Vec<_>>().join("-")
+                            })
+                            .collect();
+                        let calls_db = format!("p[{}] q[{}]", p_calls, q_calls.join(","));
+                        if calls_db != want_db {
+                            out.violate("wrong-database", "fresh-calls-differ", format!("{ctx}\n fresh calls enumerate {calls_db}\n model {want_db}"));
+                        }
+                    }
+                    out.bump("histories_checked_against_model", 1);
+                }
             }
+        };
+        let base = out.clone();
+        judge(&model, &want_db, &mut out);
+        if !out.violations.is_empty() && model.meets > 0 {
+            // other worlds of the re-entrant retract/1 question
+            let k = model.meets.min(3);
+            let first = out.clone();
+            let mut accepted = false;
+            for bits in 1..(1u32 << k) {
+                let choices: Vec<bool> = (0..3).map(|b| bits & (1 << b) == 0).collect();
+                let mw = world(choices);
+                let wdb = mw.db_text();
+                let mut o = base.clone();
+                judge(&mw, &wdb, &mut o);
+                if o.violations.is_empty() {
+                    out = o;
+                    accepted = true;
+                    break;
+                }
+            }
+            if !accepted {
+                out = first;
+            }
+        }
+        if model.meets > 0 {
+            out.bump("histories_with_retract_meeting_a_removed_clause", 1);
         }
         self.m = Some(m);
         out
